@@ -26,6 +26,7 @@ All(checkAgree) == LET sr == StdParse(lit)
                    IN /\ Assert(NoSilentAcceptR(sr, dr), <<"P_C03_NoSilentAccept", lit>>)
                       /\ Assert(EscapesOnlyR(lit, sr), <<"P_C03_Escapes", lit>>)
                       /\ Assert(CounterLawR(sr), <<"P_C03_Counter", lit>>)
+                      /\ Assert(MachineLawR(sr), <<"P_C03_Machine", lit>>)
                       /\ Assert(dr.ok => sr.ok /\ dr.phs = sr.phs, <<"P_DmSubset", lit>>)
                       /\ Assert(checkAgree => AgreeR(sr, dr), <<"P_C03_Agree", lit>>)
                       /\ (EmitCases => PrintT(<<"CASE", ToJson(CaseRec(lit, sr, dr))>>))
